@@ -165,7 +165,21 @@ Definition skeleton_cex (lt : link_type) (natoms : nat) (ns : list nat) (rules :
            (sk : skeleton) : option valuation :=
   find (fun v => negb (list_nat_eqb (emit sk v) (expected lt rules v))) (all_vals lt natoms ns).
 
+(* every atom mentioned by the skeleton or the rule placeholders is one of the natoms enumerated *)
+Fixpoint atoms_lt (n : nat) (e : bexp) : bool :=
+  match e with
+  | BAtom i => Nat.ltb i n
+  | BAnd a b | BOr a b => atoms_lt n a && atoms_lt n b
+  | BNot a | BCoalF a => atoms_lt n a
+  | _ => true
+  end.
+Definition skeleton_atoms_bounded (natoms : nat) (rules : list bexp) (sk : skeleton) : bool :=
+  forallb (atoms_lt natoms) rules &&
+  forallb (fun s => atoms_lt natoms (s_on s) && atoms_lt natoms (s_where s)) (sels sk) &&
+  forallb (fun d => atoms_lt natoms (fst (snd d)) && atoms_lt natoms (snd (snd d))) (ids_defs sk).
+
 Definition skeleton_ok lt natoms ns rules sk : bool :=
+  skeleton_atoms_bounded natoms rules sk &&
   forallb (fun v => list_nat_eqb (emit sk v) (expected lt rules v)) (all_vals lt natoms ns).
 
 (* ------------------------------------------------------------------------------------ *)
